@@ -1382,6 +1382,10 @@ impl Interpreter {
         if let Some(saved) = self.active_saved_env.take() {
             self.env = saved;
         }
+        // A run that the host stopped stepping inside calls and blocks never unwound them:
+        // its call-stack entries and the guards of its scopes belong to nobody now
+        self.call_stack.clear();
+        self.env_guards.clear();
         self.active_module_env = None;
         self.active_module_path = None;
     }
